@@ -73,15 +73,16 @@ func (ex *Exec) ifaceAxioms(rts []RuleType) {
 		return
 	}
 	ex.Ctx.Declare("kindof", []string{"Int"}, "Str")
-	ex.Ctx.Declare("cmprule", []string{"Ref", "Ref"}, "Int")
+	// cmprule(v, a, b): result of a.Compare(b) in heap version v (Merge bumps the version)
+	ex.Ctx.Declare("cmprule", []string{"Int", "Ref", "Ref"}, "Int")
 	ex.Ctx.Define("kindof", "")
 	for _, rt := range rts {
 		ex.Ctx.AddAxiom(smt.Eq(smt.App("kindof", rt.ID), ex.StrLit(rt.Kind)))
 	}
 	same := "(= (dyn a) (dyn b))"
-	ex.Ctx.AddAxiom("(forall ((a Ref)) (! (= (cmprule a a) 0) :pattern ((cmprule a a))))")
-	ex.Ctx.AddAxiom("(forall ((a Ref) (b Ref)) (! (=> " + same + " (and (= (< (cmprule a b) 0) (> (cmprule b a) 0)) (= (= (cmprule a b) 0) (= (cmprule b a) 0)))) :pattern ((cmprule a b))))")
-	ex.Ctx.AddAxiom("(forall ((a Ref) (b Ref) (c Ref)) (! (=> (and (= (dyn a) (dyn b)) (= (dyn b) (dyn c)) (<= (cmprule a b) 0) (<= (cmprule b c) 0)) (<= (cmprule a c) 0)) :pattern ((cmprule a b) (cmprule b c))))")
+	ex.Ctx.AddAxiom("(forall ((v Int) (a Ref)) (! (= (cmprule v a a) 0) :pattern ((cmprule v a a))))")
+	ex.Ctx.AddAxiom("(forall ((v Int) (a Ref) (b Ref)) (! (=> " + same + " (and (= (< (cmprule v a b) 0) (> (cmprule v b a) 0)) (= (= (cmprule v a b) 0) (= (cmprule v b a) 0)))) :pattern ((cmprule v a b))))")
+	ex.Ctx.AddAxiom("(forall ((v Int) (a Ref) (b Ref) (c Ref)) (! (=> (and (= (dyn a) (dyn b)) (= (dyn b) (dyn c)) (<= (cmprule v a b) 0) (<= (cmprule v b c) 0)) (<= (cmprule v a c) 0)) :pattern ((cmprule v a b) (cmprule v b c))))")
 }
 
 // KindInjective: the Kind() constants of the implementing types are pairwise different.
@@ -144,7 +145,7 @@ func (ex *Exec) SortLaws(fn *ssa.Function, fc *contract.Func, excludeKinds []str
 			pre := smt.And(smt.Neq(o.Ref, NilRef), smt.Eq(smt.App("dyn", i.Ref), smt.App("dyn", o.Ref)))
 			ex.AddObl(st, "requires", "call/Rule.Compare/requires", ex.pos(c.Pos()), pre)
 			st.Assume(pre)
-			return ret1(st, Int{smt.App("cmprule", i.Ref, o.Ref)}), true
+			return ret1(st, Int{smt.App("cmprule", "0", i.Ref, o.Ref)}), true
 		}
 		return nil, false
 	}
